@@ -45,7 +45,7 @@ def callee_returns(prog, fi: FuncInfo) -> List[Tuple[tuple, Val]]:
     if len(combos) > 12:
         combos = combos[:12]
     out, raises_all, evs = [], [], []
-    # one more evaluation per dispatch parameter with a name outside its table: what the callee raises for an unknown name (returns are not recorded)
+    # one more evaluation per dispatch parameter with a name outside its table: what the callee does for an unknown name (it has to raise; a return - e.g. an implicit None - is recorded like any other)
     unknown_combos = [tuple('__unknown__' if j == i else c for j, c in enumerate(combos[0])) for i in range(len(disp))] if disp else []
     for combo in combos + unknown_combos:
         args: Dict[str, Val] = {}
@@ -68,8 +68,6 @@ def callee_returns(prog, fi: FuncInfo) -> List[Tuple[tuple, Val]]:
         ev = Evaluator(prog, opaque_kind=REPO_RESULT_KIND, max_depth=10)
         res, st = ev.run_function(fi, args=args, star_kwargs=star)
         for e in ev.events:
-            if combo in unknown_combos:
-                break
             if e.func is fi and e.kind == 'return':
                 out.append((e.guard, e.data['value']))
             elif e.kind == 'fallthrough' and e.data.get('func') is fi:
